@@ -73,6 +73,14 @@ Filter(R, q) == FilterFrom(R, q, 1)
 
 IsSortedBy(R, asc) == \A k \in 1..(Len(R) - 1) :
                          IF asc THEN R[k].date.ord <= R[k + 1].date.ord ELSE R[k].date.ord >= R[k + 1].date.ord
+(* the records in date order; records of the same date keep their order *)
+RECURSIVE SortRecs(_, _)
+SortRecs(R, asc) ==
+    IF R = <<>> THEN <<>>
+    ELSE LET better(i, j) == IF asc THEN R[i].date.ord < R[j].date.ord ELSE R[i].date.ord > R[j].date.ord
+             i == CHOOSE x \in 1..Len(R) : \A j \in 1..Len(R) : ~better(j, x) /\ (R[j].date.ord = R[x].date.ord => x <= j)
+         IN  <<R[i]>> \o SortRecs(SubSeq(R, 1, i - 1) \o SubSeq(R, i + 1, Len(R)), asc)
+DistinctDates(R) == \A i, j \in 1..Len(R) : i # j => R[i].date.ord # R[j].date.ord
 (* S is a reordering of R (as bags of records) *)
 IsPermutation(S, R) ==
     /\ Len(S) = Len(R)
